@@ -17,7 +17,14 @@ from pyee.asyncio import AsyncIOEventEmitter
 from .exceptions import InvalidStateError
 from .rtcdatachannel import RTCDataChannel, RTCDataChannelParameters
 from .rtcdtlstransport import RTCDtlsTransport
-from .utils import random32, uint16_add, uint16_gt, uint32_gt, uint32_gte
+from .utils import (
+    random32,
+    uint16_add,
+    uint16_gt,
+    uint16_gte,
+    uint32_gt,
+    uint32_gte,
+)
 
 logger = logging.getLogger(__name__)
 
@@ -1157,8 +1164,10 @@ class RTCSctpTransport(AsyncIOEventEmitter):
         for stream_id, stream_seq in chunk.streams:
             inbound_stream = self._get_inbound_stream(stream_id)
 
-            # advance sequence number and perform delivery
-            inbound_stream.sequence_number = uint16_add(stream_seq, 1)
+            # advance sequence number (never move it backwards: the skipped
+            # message may already have been delivered) and perform delivery
+            if uint16_gte(stream_seq, inbound_stream.sequence_number):
+                inbound_stream.sequence_number = uint16_add(stream_seq, 1)
             for message in inbound_stream.pop_messages():
                 self._advertised_rwnd += len(message[2])
                 await self._receive(*message)
